@@ -542,11 +542,8 @@ theorem profileSites_no_onProfile (p : RawProfile) : (profileSites p).countP Pro
       | cons f fs =>
         simp only [List.mem_cons, List.not_mem_nil, or_false] at hl
         rcases hl with rfl | rfl <;> simp [ProfItem.isOnProfile]
-    · split at hs
-      · simp at hs
-      · simp only [List.mem_map, List.mem_range] at hs
-        obtain ⟨j, _, rfl⟩ := hs
-        simp [ProfItem.isOnProfile]
+    · obtain ⟨j, _, rfl⟩ := hs
+      simp [ProfItem.isOnProfile]
   · simp [ProfItem.isOnProfile]
 
 theorem profileHead_no_onProfile (fx : Fixes) (d : ProfileDoc) (f u : Option Nat) (n : ProfName) :
@@ -868,6 +865,71 @@ theorem routePlan_good (fx : Fixes) (h1 : fx.emptyFill = true) (h2 : fx.idCheck 
   | prof is =>
     simp only [hi, Items.plan, Plan.run.injEq] at hp; subst hp
     left
+    apply profileRun_good fx h3 thr is
+    cases r <;> cases b <;> simp only [routeItems] at hi <;> (repeat' split at hi) <;>
+      (try contradiction) <;> (try cases hi)
+    all_goals exact profileItems_one_onProfile _ _ _ _ _
+
+/-! ### after the A1 fix the Prometheus decoder's calls are well formed too -/
+
+theorem promSeries_wf (n : Nat) : ∀ (left points pending : Nat),
+    ∀ i ∈ promSeries n left points pending, i.wf = true
+  | 0, _, pending => by
+    intro i hi
+    simp only [promSeries] at hi
+    split at hi
+    · simp only [List.mem_cons, List.not_mem_nil, or_false] at hi
+      subst hi
+      simp [LogItem.wf, EntriesCall.wf]
+    · simp at hi
+  | left + 1, points, pending => by
+    intro i hi
+    simp only [promSeries] at hi
+    split at hi
+    · simp only [List.mem_cons] at hi
+      rcases hi with rfl | hi
+      · simp [LogItem.wf, EntriesCall.wf]
+      · exact promSeries_wf n left 0 0 i hi
+    · exact promSeries_wf n left (points + 1) (pending + 1) i hi
+
+theorem promItems_wf : ∀ (ns : List Nat) (points : Nat), ∀ i ∈ promItems ns points, i.wf = true
+  | [], _ => by simp [promItems]
+  | n :: ns, points => by
+    intro i hi
+    simp only [promItems, List.mem_append] at hi
+    rcases hi with hi | hi
+    · exact promSeries_wf n n points 0 i hi
+    · exact promItems_wf ns _ i hi
+
+theorem routeItems_logs_wf (fx : Fixes) (r : Route) (b : Body)
+    (is : List LogItem) (h : routeItems fx r b = .logs is) : is.all LogItem.wf = true := by
+  cases r <;> cases b <;> simp only [routeItems] at h <;> (try split at h) <;> (try split at h) <;>
+    (try split at h) <;> (try cases h) <;>
+    first
+    | exact lokiJsonItems_wf _ _
+    | exact lokiProtoItems_wf _
+    | exact influxItems_wf _
+    | exact otlpLogsItems_wf _
+    | exact bulkItems_wf _ _
+    | exact all_wf_of_mem (promItems_wf _ _)
+    | rfl
+    | (split <;> rfl)
+
+/-- every parser run only emits portions that keep the columns rectangular, on every route -/
+theorem routePlan_good_all (fx : Fixes) (h2 : fx.idCheck = true) (h3 : fx.profileFlush = true)
+    (thr : Nat) (r : Route) (b : Body) (run : Run) (hp : routePlan fx thr r b = .run run) : run.good := by
+  unfold routePlan at hp
+  cases hi : routeItems fx r b with
+  | reject c => simp [hi, Items.plan] at hp
+  | preParse c => simp [hi, Items.plan] at hp
+  | logs is =>
+    simp only [hi, Items.plan, Plan.run.injEq] at hp; subst hp
+    exact logsRun_good fx thr is (routeItems_logs_wf fx r b is hi)
+  | spans is =>
+    simp only [hi, Items.plan, Plan.run.injEq] at hp; subst hp
+    exact spansRun_good fx h2 thr is
+  | prof is =>
+    simp only [hi, Items.plan, Plan.run.injEq] at hp; subst hp
     apply profileRun_good fx h3 thr is
     cases r <;> cases b <;> simp only [routeItems] at hi <;> (repeat' split at hi) <;>
       (try contradiction) <;> (try cases hi)
